@@ -51,6 +51,8 @@ CFG = {
         "Swat4.C16.mark_preserved_probeRetry",
         "Swat4.C16.pop_strict_held",
         "Swat4.C16.pop_complete_backed",
+        "Swat4.C16.runner_is_model",
+        "Swat4.C16.runner_complete_backed",
         "Swat4.C16.facts_item_id_uses",
     ],
     "shards": (1, 16),
@@ -99,8 +101,9 @@ CFG = {
                 "C16_interleaved now covers the two-step cleaner (Client.cleanServers2); mark_preserved_* — report, keepalive, removal, REST submission, refresh, "
                 "revival, both cleaners and the prober's retry never clear a retry bit of a row that stays, at every crash/fault point (only HandleSuccess/HandleFailure do); "
                 "pop_strict_held — after PopMany from a BackedStrict store every mark is backed by a queued non-expiring probe or by a probe the call returned; "
-                "pop_complete_backed — a fault-free prober batch (PopMany n, then probeserver for every popped probe to completion, any order, any outcomes; mirrors the driver's pop client) "
-                "ends BackedStrict again. "
+                "pop_complete_backed — a fault-free prober batch (UC.proberRunWith of Model/UseCases/ProberRun.lean: PopMany n, then probeserver for every popped probe to completion, any order, any outcomes) "
+                "ends BackedStrict again; runner_is_model — the program the driver runs for a pop client IS the Model's UC.proberRun (definitional; the driver only renders its report), "
+                "runner_complete_backed — hence pop_complete_backed holds of the driver's pop client itself (UC.sortBatch is a reordering). "
                 "stale_readd_unbacked: a further race in the model (no crash, no fault; needs a popper and a removal between a reporter's lookup and "
                 "its Add, which stores the stale marked copy) — outside the harness' scenarios, reported. "
                 "Two genuine violations are recorded as known findings with signatures (holder-loss: the destructive pop; consumed-before-mark: enqueue "
